@@ -56,7 +56,7 @@ FAULT_PROBES = {"runner_killed": "runner_killed", "output_file_torn": "output_to
                 "runners_overlapped": "runners_overlapped"}
 # a small share of the runs is repeated by fresh interpreters started with `python -O` (assert statements stripped)
 INTERP_VARIANTS = [{"flags": ["-O"], "runs": {"quick": 160, "thorough": 3000}, "what": "python -O (assert statements stripped from the code under test)"}]
-PROBES = ["cache_hit_valid", "cache_other_tag", "cache_failed_rc", "cache_success_flag_but_missing_file", "cache_unreadable", "destination_only_key",
+PROBES = ["hash_comparison_switched_off_by_caller", "cache_hit_valid", "cache_other_tag", "cache_failed_rc", "cache_success_flag_but_missing_file", "cache_unreadable", "destination_only_key",
           "item_already_in_destination", "vectorised_partly_cached", "runner_killed", "output_torn", "interrupt_prepare", "interrupt_submit",
           "interrupt_wait", "interrupt_finalise", "tag_changed_between_calls", "fail_after_writing_return_file", "closing_call_completed", "idempotent_call_checked", "runners_overlapped", "driver_with_envars"]
 
@@ -103,6 +103,14 @@ def gen_plan(r, tier, index):
         if ci and r.random() < 0.25:
             tag = f"t{ci}"
         call = {"tag": tag, "outcomes": {}, "faults": {}, "interrupt": None, "cache_ops": [], "exec_seed": r.randrange(1 << 30)}
+        # the less-used parameters of jobmap: job arguments given positionally, verbose output, and the caller's explicit
+        # opt-out of the hash comparison (strict_hash=False: a successful cached output is reused whatever its input was)
+        if r.random() < 0.15:
+            call["as_args"] = True
+        if r.random() < 0.1:
+            call["verbose"] = True
+        if ci and r.random() < 0.1:
+            call["lenient_hash"] = True
         for e in all_eks:
             o = r.choice(OUTCOMES)
             if o != "ok":
@@ -276,7 +284,7 @@ def run_plan(plan, trace=False):
                     elif c == "unreadable":
                         st = "cache-unreadable"
                         res.stats["probe:cache_unreadable"] += 1
-                    elif c["tag"] != tag:
+                    elif c["tag"] != tag and not call.get("lenient_hash"):
                         st = "cache-other-tag"
                         res.stats["probe:cache_other_tag"] += 1
                     elif not c["success"]:
@@ -338,7 +346,21 @@ def run_plan(plan, trace=False):
             raised = None
             with pipeline_seams(fe, sp, exf, tq):
                 try:
-                    jobmap(job, src_ro, dst, cache_dir=cache_dir, scratch_dir=scratch, n_workers=plan["n_workers"], kwargs={"tag": tag})
+                    import contextlib
+                    import io as _io
+
+                    extra = {}
+                    if call.get("as_args"):
+                        extra["args"] = (tag,)
+                    else:
+                        extra["kwargs"] = {"tag": tag}
+                    if call.get("verbose"):
+                        extra["verbose"] = True
+                    if call.get("lenient_hash"):
+                        extra["strict_hash"] = False
+                        res.stats["probe:hash_comparison_switched_off_by_caller"] += 1
+                    with contextlib.redirect_stdout(_io.StringIO()):
+                        jobmap(job, src_ro, dst, cache_dir=cache_dir, scratch_dir=scratch, n_workers=plan["n_workers"], **extra)
                 except SimInterrupt as e:
                     raised = e
                 except HarnessError:
@@ -409,11 +431,17 @@ def run_plan(plan, trace=False):
             for e, flt in call["faults"].items():
                 if flt["kind"] == "kill_before_start" and e in expect_exec:
                     res.stats["probe:runner_killed"] += 1
+            # An output jobmap decided NOT to reuse may be removed by it before the job runs again (it is, since fba74a9) or
+            # be left in place: the statement does not care, but the model has to know whether the file is still there -
+            # a later call with strict_hash=False may legitimately reuse it.  Existence (nothing else) is read off the disk.
+            for e in expect_exec:
+                if isinstance(cache.get(e), dict) and not os.path.isfile(os.path.join(outdir, e + ".out")):
+                    cache[e] = None
             # ---- destination
             expect_new = {}
             for nm in todo:
                 ks = eks(all_items[nm])
-                ok = all(isinstance(cache.get(e), dict) and cache[e]["success"] and cache[e]["tag"] == tag for e in ks)
+                ok = all(isinstance(cache.get(e), dict) and cache[e]["success"] and (cache[e]["tag"] == tag or call.get("lenient_hash")) for e in ks)
                 if ok:
                     expect_new[nm] = [cache[e]["content"] for e in ks] if vec else cache[ks[0]]["content"]
             dst_ro = Lib(dst_path)
